@@ -508,6 +508,31 @@ def run(ck, facts):
     if n_id < 5:
         ck.bad("R3", "id-unwrap/floor", "only %d `Type::id().unwrap()` sites found (7 counted)" % n_id)
 
+    # ---------------- R3 (cont.) docs links: the number of trailing path elements a link kind is said to have (the `module_depth` table: 1 for an item, 2 for an item's
+    # member, 3 for a variant field) is the number of elements the URL builder then takes with `elements.next().unwrap()`: one for the item page plus one per anchor part
+    dg = core.fn("ast::docs::DocsUrlGenerator::gen_for_rust_link", optional=True)
+    if dg is None:
+        ck.bad("R3", "docs::gen_for_rust_link/anchor", "DocsUrlGenerator::gen_for_rust_link not found", None)
+    else:
+        dms = [m_ for m_ in C.walk(C.fn_body(dg)) if m_.get("k") == "match" and (m_.get("sadt") or "").endswith("DocType")]
+        depth_m = next((m_ for m_ in dms if all(C.strip(a_["b"]).get("k") == "lit" and C.strip(a_["b"]).get("t") == "int" for a_ in m_["arms"])), None)
+        take_m = next((m_ for m_ in dms if any(any(x.get("k") == "mcall" and x.get("m") == "next" for x in C.walk(a_["b"])) for a_ in m_["arms"])), None)
+        if depth_m is None or take_m is None:
+            ck.bad("R3", "docs::gen_for_rust_link/tables", "cannot find the depth table / the anchor table over DocType", C.loc(dg))
+        else:
+            depth, takes = {}, {}
+            for v, hits in C.decision_table(depth_m, adts):
+                i_ = next((i for i, c_ in hits if not c_), None)
+                if i_ is not None:
+                    depth[v.variant] = int(C.strip(depth_m["arms"][i_]["b"])["v"])
+            for v, hits in C.decision_table(take_m, adts):
+                i_ = next((i for i, c_ in hits if not c_), None)
+                takes[v.variant] = sum(1 for x in C.walk(take_m["arms"][i_]["b"]) if x.get("k") == "mcall" and x.get("m") == "next") if i_ is not None else 0
+            badv = {v_: (d_, 1 + takes.get(v_, 0)) for v_, d_ in depth.items() if d_ != 0 and d_ != 1 + takes.get(v_, 0)}
+            ck.expect(len(depth) >= 20 and not badv, "R3", "docs::gen_for_rust_link/elements-taken-agree", "%d link kinds" % len(depth),
+                      "link kinds %s reserve (depth table) a different number of trailing path elements than the URL builder takes (item + anchor parts): `elements.next().unwrap()` panics on a "
+                      "well-formed #[diplomat::rust_link] in every backend that prints docs" % badv, C.loc(dg))
+
     # ---------------- R4 nanobind param_decls agreement
     g = tool.fn("nanobind::ty::TyGenContext::gen_method_info")
     # the site that builds the parameter declarations (a NamedType per parameter) -- in gen_method_info or in a helper it delegates to -- and the conditions on
@@ -699,6 +724,9 @@ def run(ck, facts):
                           "allocator (none is needed to write it into a buffer) and the conversion panics with `Expected an allocator to be specified`", C.loc(gfl, n_.get("ln")))
     if nlist < 1:
         ck.bad("R5", "js::generate_fields/list-context-floor", "no JsToCConversionContext::List construction found in generate_fields (1 counted)")
+    # the duplicate-file panic of FileMap::add_file is triaged as depending on identifier spelling only: that holds as long as file names keep the type name as it is (C14.R4)
+    import c14
+    c14.run(C.SubCheck(ck, "R1", "", ["R4"], key_re=r"name-kept-as-is|fmt_file_name"), facts)
     import c04
     sub = C.SubCheck(ck, "R5", "", ["R6"], key_re=r"lifetime-env|def-lifetime-in-user-env|matcher-selftest|^floor|loop-pattern")   # the index-branding part of C04.R6 (an index into the wrong environment panics)
     c04.run(sub, facts)
